@@ -371,6 +371,28 @@ func checkC05(c *CaseC05, fl *Fails) {
 }
 
 func sweepC05(tier string, emit func(*CaseC05)) {
+	// a complete block of eight siblings (and of 64 grandchildren) listed twice / interleaved in the first list, probed
+	// with voxels of the grandparent that lie outside the block (no pair overlaps) and inside it
+	for _, z := range []int64{3, 5, 20, 26, 30} {
+		par := ref.Box{H: z, X: 5, Y: 2, V: z, F: -2}
+		var kids, grand []ref.Box
+		for i := int64(0); i < 8; i++ {
+			k := ref.Box{H: z + 1, X: par.X*2 + i&1, Y: par.Y*2 + (i>>1)&1, V: z + 1, F: par.F*2 + (i>>2)&1}
+			kids = append(kids, k)
+			for j := int64(0); j < 8; j++ {
+				grand = append(grand, ref.Box{H: z + 2, X: k.X*2 + j&1, Y: k.Y*2 + (j>>1)&1, V: z + 2, F: k.F*2 + (j>>2)&1})
+			}
+		}
+		outside := ref.Box{H: z + 1, X: (par.X^1)*2 + 1, Y: par.Y * 2, V: z + 1, F: par.F * 2}      // in the grandparent, not in par
+		outside2 := ref.Box{H: z + 3, X: (par.X^1)*8 + 3, Y: par.Y*8 + 1, V: z + 3, F: par.F*8 + 5} // finer, same place
+		inside := ref.Box{H: z + 3, X: par.X*8 + 3, Y: par.Y*8 + 1, V: z + 3, F: par.F*8 + 5}
+		for _, a := range [][]ref.Box{append(append([]ref.Box{}, kids...), kids...), append(append([]ref.Box{}, grand...), grand...), append(append(append([]ref.Box{}, kids...), grand...), kids[3], kids[3])} {
+			for _, b := range [][]ref.Box{{outside}, {outside2}, {inside}, {outside, outside2}} {
+				emit(&CaseC05{A: a, B: b, Spatial: true})
+				emit(&CaseC05{A: a, B: b})
+			}
+		}
+	}
 	// BOTH lists long (an indexed path that only starts when both sides are large), mixed vertical zooms in the first
 	// list, the only overlapping pair near the front of both lists (so the pairwise scan of the library stays short)
 	for _, n := range []int{2048, 2100, 4100} {
